@@ -64,3 +64,26 @@ def snap(path):
         return None
     return dict(mode=st.st_mode, uid=st.st_uid, gid=st.st_gid, nlink=st.st_nlink, size=st.st_size,
                 mtime_ns=st.st_mtime_ns, atime_ns=st.st_atime_ns, ino=st.st_ino)
+
+def snapshot_bins(ctx):
+    """Build the tools from the working tree and copy them into the run's scratch directory: the shared build
+    directory is rebuilt (and briefly empty) whenever somebody's check sees a changed tree."""
+    import shutil, time
+    last = None
+    for attempt in range(6):
+        info = build.cli("plain")
+        d = os.path.join(ctx.workdir, "bin")
+        os.makedirs(d, exist_ok=True)
+        try:
+            out = {}
+            for t in ("xz", "xzdec", "lzmadec"):
+                dst = os.path.join(d, t)
+                shutil.copyfile(info[t], dst)
+                os.chmod(dst, 0o755)
+                out[t] = dst
+            os.chmod(ctx.workdir, 0o755); os.chmod(d, 0o755)
+            return out
+        except FileNotFoundError as e:
+            last = e
+            time.sleep(2)
+    raise MachineryError("tools vanished from the build directory repeatedly: %s" % last)
